@@ -1319,6 +1319,9 @@ def desugar(fn: ast.AST) -> int:
             return None
         if isinstance(pat, ast.MatchAs) and pat.pattern is None and pat.name is None:
             return ast.Constant(value=True)
+        if isinstance(pat, ast.MatchClass) and not pat.patterns and not pat.kwd_patterns and isinstance(pat.cls, (ast.Name, ast.Attribute)):
+            # case str(): / case tuple():   ->   isinstance(subject, str)
+            return ast.Call(func=ast.Name(id="isinstance", ctx=ast.Load()), args=[copy.deepcopy(subject), copy.deepcopy(pat.cls)], keywords=[])
         return None
 
     def match_to_if(st: ast.Match) -> Optional[ast.stmt]:
@@ -1412,6 +1415,25 @@ def desugar(fn: ast.AST) -> int:
                 if pre:
                     count[0] += 1
                     out.extend(ast.copy_location(x, st) for x in pre)
+            # a named expression that is the first thing a statement evaluates:  x = f(y := g())  ->  y = g() ; x = f(y)
+            from .normalize2 import header_of, evaluated_first, parents as _parents, replace_child as _replace
+            for _ in range(4):
+                hdr = header_of(st)
+                if hdr is None:
+                    break
+                ne = next((n for n in ast.walk(hdr) if isinstance(n, ast.NamedExpr) and isinstance(n.target, ast.Name)), None)
+                if ne is None or not evaluated_first(hdr, ne):
+                    break
+                out.append(ast.copy_location(ast.Assign(targets=[ast.Name(id=ne.target.id, ctx=ast.Store())], value=ne.value), st))
+                ast.fix_missing_locations(out[-1])
+                name = ast.copy_location(ast.Name(id=ne.target.id, ctx=ast.Load()), ne)
+                if hdr is ne:
+                    for fld in ("test", "value", "iter"):
+                        if getattr(st, fld, None) is hdr:
+                            setattr(st, fld, name)
+                else:
+                    _replace(_parents(hdr).get(id(ne)), ne, name)
+                count[0] += 1
             out.append(st)
         return out
     fn.body = block(fn.body)
@@ -1620,7 +1642,7 @@ def normalize(project) -> List[str]:
     except OSError:
         return []
     renamed = recover_renamed_anchors(project)
-    from .normalize2 import simplify_defensive, recover_loops, hoist_lambda_calls, sink_loop_exit, unroll_search_loops, search_loops_to_any, fold_local_tables, dispatch_on_constant, accumulate_to_join, propagate_string_constants, unroll_index_loops, scalarise_local_lists, scalarise_records, fold_dict_building, unfold_reduce
+    from .normalize2 import simplify_defensive, recover_loops, hoist_lambda_calls, sink_loop_exit, unroll_search_loops, search_loops_to_any, fold_local_tables, dispatch_on_constant, accumulate_to_join, propagate_string_constants, unroll_index_loops, scalarise_local_lists, scalarise_records, fold_dict_building, unfold_reduce, first_match_lists, split_walrus_conjunctions
 
     module_of = {id(fi.node): fi.module for fi in project.funcs.values()}
     fi_of = {id(fi.node): fi for fi in project.funcs.values()}
@@ -1638,7 +1660,9 @@ def normalize(project) -> List[str]:
     def _style_passes(fn) -> int:
         total = 0
         for _ in range(4):
-            n = desugar(fn)
+            n = split_walrus_conjunctions(fn)
+            n += desugar(fn)
+            n += first_match_lists(fn)
             if id(fn) in fi_of and any(isinstance(x, ast.Call) and isinstance(x.func, (ast.Name, ast.Attribute)) and (x.func.id if isinstance(x.func, ast.Name) else x.func.attr) == "reduce" for x in ast.walk(fn)):
                 n += unfold_reduce(fn, _Scope(project, fi_of[id(fn)]).resolve)
             n += hoist_lambda_calls(fn)
